@@ -149,6 +149,7 @@ def parseRouteToks (toks : List String) : RouteParse :=
     | ["mw", n, i, ok] => { r with mws := r.mws ++ [(toNat n, toNat i, ok == "1")] }
     | ["req", x] => { r with raw := unhex x }
     | ["noroot"] => { r with noroot := true }
+    | ["unsetlate"] => { r with noroot := true }     -- the handler in force at headersParsed time decides
     | _ => r) {}
 
 instance : Inhabited Node := ⟨Node.mk 0 [] [] Subs.nil false⟩
